@@ -641,7 +641,10 @@ func judgeK8s(c *Case, res *execResult, o *vkit.Outcome) {
 			if l.End {
 				ch.log += "\n"
 			}
-			if !strings.HasPrefix(l.Log, ch.tag) || strings.ContainsAny(l.Log, "\n") {
+			if l.Log == "" && l.End {
+				ch.tag = "\n" // an empty line: its whole content stands in for the tag
+				o.Class("k8s:empty-line")
+			} else if !strings.HasPrefix(l.Log, ch.tag) || strings.ContainsAny(l.Log, "\n") {
 				o.Class("harness:bad-line")
 				return
 			}
